@@ -42,7 +42,8 @@ def gen_item(r, cx, lang_pair=True):
         alias = r.choice(['total', 'x', 'Zz9', 'a_b', 'NRx'])
         kw = r.choice(['as', 'AS'])
         inner = r.choice([('a1', 'a1'), ('a1 + "x"', 'a1 + "x"'), ('NR + 1', 'NR + 1'), ('"lit, with comma"', '"lit, with comma"'), ('[a1, a2][0]', '[a1, a2][0]'),
-                          ('len(a1)', 'a1.length'), ('max(NR, 2)', 'Math.max(NR, 2)')])
+                          ('len(a1)', 'a1.length'), ('max(NR, 2)', 'Math.max(NR, 2)'), ('a1 or a2', 'a1 || a2'), ('a1 and a2', 'a1 && a2'), ('not a1', '!a1'),
+                          ('a1 if NR > 1 else a2', 'NR > 1 ? a1 : a2'), ('a1 == a2', 'a1 == a2'), ('a1 < a2', 'a1 < a2')])
         return '(8 %s)' % lib.enc(alias), '%s %s %s' % (inner[0], kw, alias), '%s %s %s' % (inner[1], kw, alias)
     if cx['agg']:
         o = r.choice([('count(*)', 'count(*)'), ('MAX(a1)', 'MAX(a1)'), ('ARRAY_AGG(a2)', 'ARRAY_AGG(a2)'), ('COUNT( * )', 'COUNT( * )')])
@@ -82,7 +83,7 @@ def gen_case(r):
     if 0.5 <= shape < 0.58 and not join:
         idxs = sorted(set(r.randint(0, na - 1) for _ in range(r.randint(1, 2))))
         dcx = r.random() < 0.3
-        q = 'select %s* except %s' % ('distinct count ' if dcx else '', ', '.join('a%d' % (i + 1) for i in idxs))
+        q = 'select %s* except %s' % ('distinct count ' if dcx else r.choice(['', 'distinct ', 'top 2 ']), ', '.join('a%d' % (i + 1) for i in idxs))
         return {'q': q, 'qjs': q, 'A': A, 'B': B, 'hdrA': hdrA, 'hdrB': hdrB, 'hq': '(1 (%s) %d)' % (' '.join(map(str, idxs)), 1 if dcx else 0), 'kind': 'except'}
     if 0.58 <= shape < 0.64:
         q = 'update a1 = a2' + tail
